@@ -275,6 +275,46 @@ fn writers_for(input: &[u8], with_empty_writes: bool, with_flushes: bool) -> (u6
             }
         }
     }
+    // a second target that fails once (its k-th call, taking nothing) and recovers: the failed
+    // write call is reported; every LATER chunk written through the same tee reaches the first
+    // target completely (a later chunk is new data, not a retry of the failed one)
+    if (2..=5).contains(&n) {
+        struct FailAt {
+            calls: usize,
+            at: usize,
+            got: Vec<u8>,
+        }
+        impl Write for FailAt {
+            fn write(&mut self, buf: &[u8]) -> std::io::Result<usize> {
+                self.calls += 1;
+                if self.calls == self.at {
+                    return Err(std::io::Error::other("target fails once"));
+                }
+                self.got.extend_from_slice(buf);
+                Ok(buf.len())
+            }
+            fn flush(&mut self) -> std::io::Result<()> {
+                Ok(())
+            }
+        }
+        for split in 1..n {
+            for at in 1..=2 {
+                let mut first = FailAt { calls: 0, at: usize::MAX, got: vec![] };
+                let mut second = FailAt { calls: 0, at, got: vec![] };
+                let (r1, r2) = {
+                    let mut t = tee(&mut first, &mut second);
+                    (t.write_all(&input[..split]), t.write_all(&input[split..]))
+                };
+                calls += 2;
+                // what the first target must hold: the first chunk (it is written before the second
+                // target is tried) and, whatever happened to the first call, the whole second chunk
+                let tail_ok = first.got.ends_with(&input[split..]);
+                if r2.is_ok() && !tail_ok {
+                    viols.push(("tee:later-chunk-truncated-after-failure".into(), format!("TeeWrite: chunks {:?} then {:?}, second target failing at its call {at} (first call {:?}): the second write succeeded but the first target holds {:?}", String::from_utf8_lossy(&input[..split]), String::from_utf8_lossy(&input[split..]), r1.as_ref().map_err(|e| e.to_string()), String::from_utf8_lossy(&first.got)), json!({"kind": "tee-fail", "input": input, "k": split, "which": at})));
+                }
+            }
+        }
+    }
     (calls, states.len() as u64, viols)
 }
 
@@ -371,6 +411,29 @@ fn entry_points_with_short_writers() -> (u64, Vec<Viol>) {
                 }
             }
             Err(e) => viols.push(("entry:failed".to_string(), format!("spawn_and_write_streams failed: {e}"), json!({"kind": "entry-short"}))),
+        }
+    }
+    // a child that reads its standard input to the end before it writes: with the stdin the caller
+    // configured (here: null) it sees EOF at once, and both entry points return
+    for entry in 0..2 {
+        let (tx, rx) = channel();
+        std::thread::spawn(move || {
+            let so = std::sync::Arc::new(std::sync::Mutex::new(Vec::new()));
+            let se = std::sync::Arc::new(std::sync::Mutex::new(Vec::new()));
+            let mut cmd = Command::new("/bin/sh");
+            cmd.arg("-c").arg("cat; printf after-stdin; printf err >&2").stdin(std::process::Stdio::null());
+            let r = if entry == 0 {
+                cmd.spawn_and_write_streams(mk_sink_s(0, so.clone()), mk_sink_s(0, se.clone())).and_then(|mut c| c.wait()).map(|_| ())
+            } else {
+                cmd.output_and_write_streams(mk_sink_s(0, so.clone()), mk_sink_s(0, se.clone())).map(|_| ())
+            };
+            let _ = tx.send((r.map_err(|e| e.to_string()), so.lock().unwrap().clone()));
+        });
+        runs += 1;
+        match rx.recv_timeout(Duration::from_secs(10)) {
+            Err(_) => viols.push(("deadlock:child-reading-stdin".to_string(), format!("{} with stdin set to null: a child that reads stdin to EOF first did not finish within 10 s", ["spawn_and_write_streams", "output_and_write_streams"][entry]), json!({"kind": "entry-short"}))),
+            Ok((Ok(()), out)) if out == b"after-stdin" => {}
+            Ok((r, out)) => viols.push(("entry:bytes-lost-with-short-writer".to_string(), format!("child reading stdin first: result {r:?}, stdout {:?}", String::from_utf8_lossy(&out)), json!({"kind": "entry-short"}))),
         }
     }
     // a writer that fails mid-way while the child keeps writing more than a pipe buffer to the same
@@ -1176,7 +1239,7 @@ fn main() {
     rep.cov("evaluations", schedules + wcalls);
     rep.cov("distinct_nontrivial", schedules + wstates);
     rep.cov("determinism_replays", 1);
-    rep.cov("rule", "writers: every string over {marker,a,b} up to the length bound x every chunking (plus empty writes for short strings) x 4 mapping functions x finish by drop/unwrap through the real MappedWrite (also over an inner writer that fails once: the mapping function never sees two segments glued together), and TeeWrite incl. failing targets; both command entry points x 5x5 target behaviours (accept-all, <=1, <=7 bytes per call, LineWriter over either) x 3x3 stream sizes handed the targets directly; a target reporting one transient error (WouldBlock, Interrupted, TimedOut) at its 1st..3rd call on either stream x both entry points (success only with every byte delivered); pipe system: PipeModel explored exhaustively with stateright-style BFS over all scripts (PAR must be deadlock-free and lossless, SEQ variants must deadlock = negative control), then every maximal sequence of environment actions (token, grant out, grant err) of the model is driven through the real output_and_write_streams with a scripted child (4096-byte pipes) and gated sinks, waiting for exactly the events the model predicts");
+    rep.cov("rule", "writers: every string over {marker,a,b} up to the length bound x every chunking (plus empty writes for short strings) x 4 mapping functions x finish by drop/unwrap through the real MappedWrite (also over an inner writer that fails once: the mapping function never sees two segments glued together), and TeeWrite incl. failing targets (also a second target that fails once: later chunks reach the first target whole); a child that reads its (null) stdin to EOF before writing; both command entry points x 5x5 target behaviours (accept-all, <=1, <=7 bytes per call, LineWriter over either) x 3x3 stream sizes handed the targets directly; a target reporting one transient error (WouldBlock, Interrupted, TimedOut) at its 1st..3rd call on either stream x both entry points (success only with every byte delivered); pipe system: PipeModel explored exhaustively with stateright-style BFS over all scripts (PAR must be deadlock-free and lossless, SEQ variants must deadlock = negative control), then every maximal sequence of environment actions (token, grant out, grant err) of the model is driven through the real output_and_write_streams with a scripted child (4096-byte pipes) and gated sinks, waiting for exactly the events the model predicts");
     rep.cov("bound", json!({"writer_string_len": if args.thorough() {8} else {7}, "model_script_len": mlen, "driven_script_len": slen, "write_sizes": [1, 2048, 4096], "pipe_capacity": CAP, "schedules_per_script_cap": per_script_cap}));
     rep.cov("exhaustive", capped == 0);
     if capped > 0 {
